@@ -205,7 +205,15 @@ def run_case(args):
                 cand['duplicate'] = True       # same clause already confirmed (or tried often) in this structural case
                 continue
             st['tried'] += 1
-            for inp in [cand['inputs'], cand.get('alt_inputs')]:
+            tries = [cand['inputs'], cand.get('alt_inputs')]
+            rep = getattr(hm, 'repair', None)
+            if rep is not None:
+                # exact ties rarely survive rounding: let the harness move threshold-like inputs onto the float values the real code computes
+                try:
+                    tries += list(rep(real(), case, cand['inputs']))[:12]
+                except Exception:
+                    pass
+            for inp in tries:
                 if inp is None:
                     continue
                 conc = run_concrete(hm, case, inp, timeout_s=case.get('replay_timeout_s', 30))
